@@ -338,6 +338,8 @@ theorem Good.nonStructural {m : Mon C01St} {c : Sys} {op : COp} {ops : List COp}
   | setReady _ => rw [view_applyOp_env _ _ trivial]; exact hB
   | setFlush _ => rw [view_applyOp_env _ _ trivial]; exact hB
   | fault _ => rw [view_applyOp_env _ _ trivial]; exact hB
+  | faultSkip _ => rw [view_applyOp_env _ _ trivial]; exact hB
+  | selfWake _ => rw [view_applyOp_env _ _ trivial]; exact hB
   | take _ => rw [view_applyOp_env _ _ trivial]; exact hB
   | advance _ => rw [view_applyOp_env _ _ trivial]; exact hB
 
@@ -456,6 +458,8 @@ theorem Good.applied {m : Mon C01St} {c : Sys} {op : COp} {ops : List COp} (g : 
   | setReady _ => exact g.nonStructural rfl
   | setFlush _ => exact g.nonStructural rfl
   | fault _ => exact g.nonStructural rfl
+  | faultSkip _ => exact g.nonStructural rfl
+  | selfWake _ => exact g.nonStructural rfl
   | take _ => exact g.nonStructural rfl
   | advance _ => exact g.nonStructural rfl
 
@@ -506,6 +510,8 @@ theorem Good.fut_step {m : Mon C01St} {c : Sys} {op : COp} {ops : List COp} (g :
   | setReady _ => rw [view_applyOp_env _ _ trivial]; exact hf
   | setFlush _ => rw [view_applyOp_env _ _ trivial]; exact hf
   | fault _ => rw [view_applyOp_env _ _ trivial]; exact hf
+  | faultSkip _ => rw [view_applyOp_env _ _ trivial]; exact hf
+  | selfWake _ => rw [view_applyOp_env _ _ trivial]; exact hf
   | take _ => rw [view_applyOp_env _ _ trivial]; exact hf
   | advance _ => rw [view_applyOp_env _ _ trivial]; exact hf
 
